@@ -406,3 +406,13 @@ package sqlite
 //@ site call Truncate assert false
 //@ site call Reset assert false
 //@ site call Exec assert db == s.db && query == CREATE_TABLE_STATEMENT
+
+// Enqueue accepts a submission exactly when it was put on the queue (C12: a submission reported accepted is
+// processed and answered by the worker; one reported refused is answered with queue-full by the caller; never
+// both, never neither).
+//@ func (*SqliteStore).Enqueue
+//@ props C12
+//@ nopanic C13
+//@ requires s != nil && s.sq != nil && !closed(s.sq)
+//@ ensures result == (sends(s.sq) == 1)
+//@ ensures sends(s.sq) <= 1
